@@ -67,7 +67,8 @@ package snow3g
 //@   requires 0 <= n && n <= len(ks)
 //@   assigns *s, ks[:]
 //@   specfuel 999
-//@   opaque FsmF, FsmNext, LfsrKey, SnowWorkIter
+//@   opaque FsmF, FsmNext, LfsrKey
+//@   recursive SnowWorkIter
 //@   loop 0 invariant 0 <= i && i <= n
 //@   loop 0 invariant *s == spec.SnowWorkIter(old(*s), i)
 //@   loop 0 invariant forall(t, 0, i, ks[t] == spec.SnowWorkZ(old(*s), t))
